@@ -136,11 +136,15 @@ def canon(r):
     return ("ok", "other:" + type(r).__name__, [], [])
 
 
-def run_expr(dep, op, L, R):
+def run_expr(dep, op, L, R, bare_default=False):
+    """`L op R` inside `pba.dependency(dep)`; with `bare_default` (only for dep == 'f') outside any context manager, so the
+    library's default ambient dependency is what is exercised"""
     P = pba()
     try:
         with warnings.catch_warnings():
             warnings.simplefilter("ignore")
+            if bare_default and dep == "f":
+                return canon(pbx.PYOPS[op](L, R))
             with P.dependency(dep):
                 return canon(pbx.PYOPS[op](L, R))
     except BaseException as e:  # noqa
@@ -456,6 +460,11 @@ def model_batch_par(reqs, workers=None):
     return res
 
 
+def zero_width_end(b):
+    """the lowest or the highest step of the converted operand is a point"""
+    return b[0][0] == b[1][0] or b[0][-1] == b[1][-1]
+
+
 def rounding_raise(feat, impl):
     return (impl[0] == "err" and impl[1] == "Other" and feat["dep"] == "f" and feat["op"] in ("mul", "div")
             and feat["lw0"] and feat["rw0"] and "str" in (feat["sl"], feat["sr"]))
@@ -556,7 +565,9 @@ def run(ctx: core.Check):
                        "a DempsterShafer operand by the p-box of its to_pbox() (C08's subject)",
                        "binary64 rounding not modelled: integer/dyadic streams agree exactly for + - *, others within 4*24 ulp of the largest magnitude",
                        "moments (mean/var passed by Interval.to_pbox, LP moments) are not part of the compared result",
-                       "division by an operand containing zero is outside the property (tie on the error kind / returned bounds only)"]
+                       "division by an operand containing zero is outside the property (tie on the error kind / returned bounds only)",
+                       "a raise that depends on binary64 rounding (imposition of two coinciding zero-width bounds, KF-C07-frechet-precise-"
+                       "straddle-rounding) cannot be mirrored by the exact model: those cases are excluded from the tie count and reported by the oracle"]
     ctx.lean_stage(["Pun.Lemmas.Hier", "Pun.Props.C07"])
     cases = gen_cases(ctx)
     replies = model_batch_par([wire(c) for c in cases])
@@ -575,22 +586,27 @@ def run(ctx: core.Check):
         exact = exact_opd(l) and exact_opd(r) and op != "div"
         L, R = build(l), build(r)
         if form == "expr":
-            impl = run_expr(dep, op, L, R)
+            bare = dep == "f" and rng.random() < 0.5
+            if bare:
+                ctx.bump("expr:default-dependency-no-context")
+            impl = run_expr(dep, op, L, R, bare)
         elif form == "meth":
             impl = run_meth(dep, op, L, R)
         else:  # spec: every operand converted first, on the real code
             impl = run_meth(dep, op, conv_first(l), conv_first(r))
         feat = {"form": form, "op": op, "dep": dep, "lkind": kl, "rkind": kr,
                 "sl": pbx.sign_class(*bounds(l))[:3], "sr": pbx.sign_class(*bounds(r))[:3],
-                "lw0": bounds(l)[0] == bounds(l)[1], "rw0": bounds(r)[0] == bounds(r)[1]}
+                "lw0": zero_width_end(bounds(l)), "rw0": zero_width_end(bounds(r))}
         case = {"form": form, "dep": dep, "op": op, "l": short(l), "r": short(r), "impl": js(impl)}
         ctx.sample({k: v for k, v in case.items()})
-        if impl[0] == "nonfinite":
+        if impl[0] == "nonfinite" or (form == "spec" and op == "div" and model == ("err", "Value") and impl[0] == "err"):
+            # a zero bound in a p-box divisor: numpy produces inf (or the bare `except` around `1 / other` turns the failure into
+            # TypeError); the model's reciprocal reports "not representable" (`Value`).  Outside the property; both must fail.
             ctx.tie_ok() if model[0] == "err" else ctx.tie_bad(stream, case, js(impl), js(model))
             continue
         if rounding_raise(feat, impl) and model[0] == "ok":
-            # Frechet product of two zero-width operands, one straddling zero: naive and Balch bounds coincide exactly, the
-            # imposition raises or not depending on binary64 rounding, which the exact model cannot mirror (reported below)
+            # Frechet product of two operands whose extreme step is a point, one straddling zero: naive and Balch bounds coincide
+            # exactly there, the imposition raises or not depending on binary64 rounding, which the exact model cannot mirror
             ctx.bump("tie-skipped:rounding-dependent-raise")
         elif same(impl, model, exact):
             ctx.tie_ok()
